@@ -196,6 +196,11 @@ class KernelSim(WorldBase):
             flow = g.choice(flows)
             reg = [x + [False] for x in all_reg(flow["order"])]
             warm = g.random() < 0.25
+            if g.random() < 0.2 and len(flow["order"]) >= 2:
+                # an earlier session of the program projected one of these ranks onto another and was left behind
+                src, dst = g.sample(flow["order"], 2)
+                evs.append(["projhist", {"src": src, "dst": dst, "end": g.choice(["abandon", "raise", "normal"]),
+                                         "prefix": g.choice(["s", "hist"])}])
             for t in THRESHOLDS:
                 evs.append(["session", {"role": "sweep", "flow": flow, "prefix": "s", "reg": reg, "ncu": t,
                                         "end": "normal", "warmup": warm}])
@@ -207,6 +212,13 @@ class KernelSim(WorldBase):
                 to = g.random() < 0.5
                 for t in (2, 1000, g.choice(THRESHOLDS)):
                     evs.append(["flat", {"dims": [M, Kk, N], "ent": ent, "ncu": t, "traced_outer": to}])
+                if g.random() < 0.5:
+                    # ... and another tensor whose flattened rank has the same name but another shape, in a later session
+                    M2, K2 = g.randint(1, 3), g.choice([k for k in (1, 2, 3, 4, 5) if k != Kk])
+                    ent2 = [[[m, k, n], g.choice([1, 2, 3])] for m in range(M2) for k in range(K2) for n in range(N)
+                            if g.random() < 0.7]
+                    for t in (2, g.choice(THRESHOLDS)):
+                        evs.append(["flat", {"dims": [M2, K2, N], "ent": ent2, "ncu": t, "traced_outer": to}])
             if g.random() < 0.4:
                 S = g.randint(2, 7)
                 mk = lambda: [[c, g.choice([1, 2, 3])] for c in range(S) if g.random() < 0.6]
@@ -225,6 +237,7 @@ class KernelSim(WorldBase):
                 idiom = g.choice([1, 2, 3])
                 dstrank = g.choice(["M", "M", "K"])
                 prebuilt = g.random() < 0.3
+                midreg = g.random() < 0.35
                 dense_outer = False
                 sp = g.choice([None, 0, 1]) if (idiom == 1 and iv is None) else None
                 if idiom == 3:
@@ -241,7 +254,8 @@ class KernelSim(WorldBase):
                 for t in (2, 1000, g.choice(THRESHOLDS)):
                     evs.append(["proj", {"dims": [B, Kk], "ent": ent, "off": off, "interval": iv, "idiom": idiom,
                                          "start_pos": sp, "ncu": t, "dense_outer": idiom == 3 and dense_outer,
-                                         "dst": dstrank, "prebuilt": idiom in (1, 2) and prebuilt}])
+                                         "dst": dstrank, "prebuilt": idiom in (1, 2) and prebuilt,
+                                         "midreg": idiom == 3 and midreg}])
             if False and g.random() < 0.5:
                 # convolution by projection: project_i traces, matched ranks.  DISABLED: under collection the
                 # library needs the source rank matched to the destination rank *before* the destination rank is
@@ -1499,14 +1513,21 @@ class KernelSim(WorldBase):
         Metrics.beginCollect(prefix)
         try:
             Metrics.setNumCachedUses(a["ncu"])
-            Metrics.trace("B", "iter")
-            Metrics.trace("K", "iter")
+            midreg = bool(a.get("midreg"))
+            if not midreg:
+                # (with midreg nothing at all is traced when the outer loop starts)
+                Metrics.trace("B", "iter")
+                Metrics.trace("K", "iter")
             pb = 0
             dense = bool(a.get("dense_outer"))
             # (a dense, element-creating walk of the outer rank - the form used for uncompressed output ranks - writes
             #  no iter rows of its own on the pinned tree; only the rows of the rank below it are judged)
             outer_it = a_b.iterShapeRef() if dense else a_b
             for b, a_k in outer_it:
+                if midreg and pb == 0:
+                    # the trace of the inner rank is only asked for once the outer loop is already running
+                    Metrics.trace("K", "iter")
+                    self.probe("trace_registered_inside_a_running_loop")
                 if not dense:
                     exp_outer.append([pb, b, a_b.coords.index(b)])
                 if dense and sp is not None and len(a_k.coords) <= sp:
@@ -1543,10 +1564,12 @@ class KernelSim(WorldBase):
         self.probe("proj_checked:idiom3")
         for name, header, want in (("pj-B-iter.csv", ["B_pos", "B", "fiber_pos"], exp_outer),
                                    ("pj-K-iter.csv", ["B_pos", "K_pos", "B", "K", "fiber_pos"], exp_inner)):
-            if a.get("dense_outer") and name == "pj-B-iter.csv":
+            if (a.get("dense_outer") or a.get("midreg")) and name == "pj-B-iter.csv":
                 continue
             path = os.path.join(self.scratch, name)
             text = open(path).read() if os.path.exists(path) else None
+            if text is None and a.get("midreg") and not want:
+                continue         # the outer loop never ran: the inner trace was never asked for
             if text is None:
                 self.V("C16", "C16.header", "proj", f"no trace file {name}")
                 continue
